@@ -60,8 +60,6 @@ namespace xsv
         return got == exp ? J_OK : J_FAIL;
     }
 
-#define XSV_J [](auto* a, int64_t imm, auto got, auto& exp, unsigned& cls) -> int
-#define XSV_T typename std::remove_reference<decltype(exp)>::type
 
     inline void register_int_ops()
     {
